@@ -122,6 +122,13 @@ FamTwo ==
                                Opt(Search(a, b, St(b1), b1[2], St(b2), b2[2], fe)))
      /\ Row("mismatch", a, b, 0, KW2(b1[1], b1[2], b2[1], b2[2], FALSE), "int", Opt(Mismatch(a, b, St(b1), b1[2], St(b2), b2[2])))
      /\ Row("replace", b, a, 0, KW2(b2[1], b2[2], b1[1], b1[2], FALSE), "seq", Replace(b, a, St(b2), b2[2], St(b1), b1[2]))
+\* longer patterns in longer texts (patterns that overlap themselves, a match that begins inside a failed partial match), whole
+\* sequences and a few :start2 / :end2
+FamSearch ==
+  \A a \in UNION {[1..k -> {0, 1}] : k \in 3..4} : \A b \in UNION {[1..k -> {0, 1}] : k \in 4..(MaxLen + 4)} : \A fe \in BOOLEAN :
+     \A b2 \in {<<None, None>>, <<1, None>>, <<0, Len(b) - 1>>} :
+        /\ Row("search", a, b, 0, KW2(None, None, b2[1], b2[2], fe), "int", Opt(Search(a, b, 0, None, St(b2), b2[2], fe)))
+        /\ (fe \/ b2[1] # None \/ Row("mismatch", a, b, 0, KW2(None, None, None, None, FALSE), "int", Opt(Mismatch(a, b, 0, None, 0, None))))
 FamOne ==
   \A s \in Seqs(MaxLen) :
      /\ Row("reverse", s, <<>>, 0, NoKW, "seq", Rev(s))
@@ -164,7 +171,7 @@ FamSort ==
      /\ LET h == Len(s) \div 2  x == StableSort(SubSeq(s, 1, h))  y == StableSort(SubSeq(s, h + 1, Len(s))) IN
         Row("merge", x, y, 0, NoKW, "seq", Merge(x, y))
 Next == /\ ~done /\ done' = TRUE
-        /\ FamItem /\ FamDup /\ FamTwo /\ FamOne /\ FamSort
+        /\ FamItem /\ FamDup /\ FamTwo /\ FamSearch /\ FamOne /\ FamSort
 \* ---- design checks on the transcriptions themselves ------------------------------------------------------
 Laws == \A s \in Seqs(2) : \A b \in Bounds(Len(s)) :
           LET h == Hits(s, St(b), b[2], LAMBDA e : e = 1) IN
